@@ -301,5 +301,6 @@ func init() {
 		Need:         []string{"compositions_compared", "coarse_candles_compared", "sets_with_multi_row_fine_candles", "sets_with_multi_candle_coarse_windows", "compositions_via_aggrunner_chain"},
 		MinDistinct:  len(c22pairs),
 		BatchTimeout: 20 * time.Minute,
+		ChildEnv:     []string{"GOMAXPROCS=2"}, // a case is single-threaded; keeps 16 children from running 16 GC workers each
 	})
 }
